@@ -28,7 +28,9 @@ Shapes == <<
   \* 8 depth 4 chain alternating containers
   O([k \in {"c"} |-> A(<<O([j \in {"d"} |-> A(<<O([i \in {"e"} |-> V("c/0/d/0/e")])>>)])>>)]),
   \* 9 the hash-algorithm marker's name below the top level, where it is an ordinary member (in an object, and in an object inside an array)
-  O([k \in {"q", "ar"} |-> IF k = "q" THEN O([j \in {"_sd_alg", "w"} |-> V("q/" \o j)]) ELSE A(<<O([j \in {"_sd_alg"} |-> V("ar/0/_sd_alg")])>>)])
+  O([k \in {"q", "ar"} |-> IF k = "q" THEN O([j \in {"_sd_alg", "w"} |-> V("q/" \o j)]) ELSE A(<<O([j \in {"_sd_alg"} |-> V("ar/0/_sd_alg")])>>)]),
+  \* 10 a member named like the JSONPath root, with a child that has a namesake at the top level ($.$.pin vs $.pin; seeded W5_1m2)
+  O([k \in {"$", "pin"} |-> IF k = "$" THEN O([j \in {"pin", "x"} |-> V("$/" \o j)]) ELSE V("pin")])
 >>
 Universe3 == {Root(Shapes[i], "i1") : i \in ShapeIdx}
 StratsS(U) == {NoneS, TopS, AllS, CustomS(UserPaths(U))} \cup {CustomS({p}) : p \in UserPaths(U)}
